@@ -68,6 +68,8 @@ def main():
               "C/D from the second (agents were told what the first round had tried and asked for state carried between calls, interacting sites, rarely used "
               "paths), E/F from the third (told about both earlier rounds; asked for arithmetic, boundary, option-interaction and timing faults). "
               "Changes missed by the version of the checks that existed when they arrived, and the strengthening each one led to (section 9): "
+              "(a fourth, short round - ids ending in G, one change for each of ten properties - was caught entirely by the checks as they stood, except C03G and C05G "
+              "which led to hand-built alignments at large float32-inexact times and to a clock-free termination guard for a sampler draw); "
               "round 1 - C04B, C05A, C05B, C06B, C07A, C07B, C09B, C11A, C12B, C14B, C15A, C19A, C19B, C20B; round 2 - C04D (C04 itself; C02/C07 caught it), C07D, "
               "C09D (caught by C02 `larger`), C14D, and C20C/C20D whose demonstrations had to be run from inside the scratch worktree; round 3 - C06E, C16F. "
               "One further agent output (round-1 C02 variant B) duplicates C01B/C08A and is not kept separately.", ""] + notes + [""]
